@@ -100,7 +100,7 @@ rt_build_harness!(rt_build_term_n0_b2, 0, 2, 6, true);
 rt_build_harness!(rt_build_term_n0_b3, 0, 3, 6, true);
 
 // (b)(c)(d) + termination; unwind bound = n + 3 (largest loop: n sections / n+1 array slots)
-// quick tier
+// quick tier: rt_build_term_n0_b2 and rt_build_n3_b2 only (kani.toml); the rest is thorough
 rt_build_harness!(rt_build_n1_b2, 1, 2, 6, true);
 rt_build_harness!(rt_build_n2_b2, 2, 2, 6, true);
 rt_build_harness!(rt_build_n3_b2, 3, 2, 6, true);
@@ -109,7 +109,6 @@ rt_build_harness!(rt_build_n7_b2, 7, 2, 10, true);
 rt_build_harness!(rt_build_n3_b3, 3, 3, 6, true);
 rt_build_harness!(rt_build_n4_b3, 4, 3, 7, true);
 rt_build_harness!(rt_build_n7_b3, 7, 3, 10, true);
-// thorough tier
 rt_build_harness!(rt_build_n4_b2, 4, 2, 7, true);
 rt_build_harness!(rt_build_n6_b2, 6, 2, 9, true);
 rt_build_harness!(rt_build_n8_b2, 8, 2, 11, true);
